@@ -54,10 +54,16 @@ BASES: Dict[str, Tuple[str, ...]] = {
     "class:TypedDict": (OBJ,),
     "class:Any": (OBJ,),
     # class objects that are false as truth values (a metaclass with __len__ / __bool__: a registry that is still empty)
+    # a base class whose metaclass refuses subclass checks (a typing.Protocol that is not runtime-checkable, a Protocol with data
+    # members, a metaclass that raises): issubclass(x, Proto) raises TypeError although both are ordinary classes
+    "class:Proto": (OBJ,),
+    "class:Plug1": ("class:Proto",), "class:Plug2": ("class:Proto",), "class:Plug3": ("class:Proto",),
+    "class:Plug4": ("class:Proto",), "class:Plug5": ("class:Proto",), "class:Plug6": ("class:Proto",),
     "class:Registry": ("class:Base",),
     "class:EmptyEnum": (OBJ,),
 }
 FALSY_CLASSES = ("class:Registry", "class:EmptyEnum")
+REFUSES_SUBCLASS_CHECKS = ("class:Proto",)
 NAMESAKES = ("class:Union", "class:List", "class:Dict", "class:Tuple", "class:Set", "class:Generator", "class:Iterator", "class:DefaultDict",
              "class:TypedDict", "class:Any")
 
@@ -284,7 +290,12 @@ class RewriterScenario:
                 return origin_token(obj.fields["origin"].v)
             if attr == "__module__":
                 return K("typing")
-            if attr in ("__bases__", "__mro__", "__name__", "__qualname__"):
+            if attr in ("__name__", "__qualname__"):
+                # typing's aliases answer with their public name (CPython >= 3.10; Optional[X] says "Optional")
+                o_q = obj.fields["origin"].v
+                a_q = obj.fields["args"].v if isinstance(obj.fields["args"], K) else None
+                return K("Optional" if o_q == "Union" and a_q is not None and len(a_q) == 2 and NONE_T in a_q else o_q)
+            if attr in ("__bases__", "__mro__"):
                 st.pending = "AttributeError"
                 return U("generic alias has no " + attr)
         if is_td(obj):
@@ -314,16 +325,15 @@ class RewriterScenario:
                 return origin_token(obj.name[len("mod:typing."):])
             if attr == "__module__":
                 return K("typing")
-            if attr in ("__args__", "__bases__", "__mro__", "__qualname__"):
+            if attr in ("__qualname__", "__name__"):
+                return K(obj.name[len("mod:typing."):])
+            if attr in ("__args__", "__bases__", "__mro__"):
                 st.pending = "AttributeError"
                 return U("bare alias has no " + attr)
         if obj == ANY and attr == "__module__":
             return K("typing")
         if obj == ANY and attr in ("__qualname__", "__name__"):
             return K("Any")
-        if isinstance(obj, R) and obj.kind == "generic" and attr in ("__qualname__",):
-            st.pending = "AttributeError"
-            return U("generic alias has no __qualname__")
         if obj == ANY and attr in ("__args__", "__origin__", "__bases__", "__mro__"):
             st.pending = "AttributeError"
             return U("Any has no " + attr)
@@ -400,6 +410,9 @@ class RewriterScenario:
             return None
         if d == "issubclass" and len(args) == 2:
             a, b = args
+            if is_class(b) and b.name in REFUSES_SUBCLASS_CHECKS and (is_class(a) or is_td(a)):  # type: ignore[union-attr]
+                st.pending = "TypeError"  # Instance and class checks can only be used with @runtime_checkable protocols
+                return U("issubclass against a class that refuses subclass checks")
             if is_class(a) and is_class(b):
                 return K(b.name in mro(a.name))  # type: ignore[union-attr]
             if is_td(b) and (is_class(a) or is_td(a)):
@@ -613,6 +626,11 @@ def deep_inputs() -> List[V]:
         union(g("Set", BASE), g("Set", union(BASE, L1))), union(g("List", MID), g("List", union(L1, L2))), union(g("Tuple", BASE), g("Tuple", union(L1, OTH))),
         union(g("Dict", STR, LI), g("Dict", STR, union(LA, LI))), union(g("List", g("Iterator", i)), g("List", g("Generator", i, n_, n_))),
         g("List", union(g("Set", BASE), g("Set", union(BASE, L1)))),
+        # ... a union of tuples of dicts that differ only in a nested dict union (members equal once that is merged; what is
+        # left is ONE tuple whose arguments are all dicts with one key type)
+        union(g("Tuple", DSI, union(DSI, DSS)), g("Tuple", DSI, g("Dict", STR, union(i, s_)))),
+        union(g("List", union(DSI, DSS)), g("List", g("Dict", STR, union(i, s_)))),
+        union(g("Tuple", union(DSI, DSS), union(DSI, DSS)), g("Tuple", g("Dict", STR, union(i, s_)), g("Dict", STR, union(i, s_)))),
         # generated TypedDicts: as members of a raw union (a generator's yields), as containers of unions, inside containers
         g("Iterator", union(DAA, anon_td({"a": i}))), union(anon_td({"a": i}), DAA), union(DAA, anon_td({}, {"b": s_}), i),
         anon_td({"a": union(LA, LI)}), anon_td({"a": union(DSI, DSS)}, {"b": union(SA, SI)}), g("List", anon_td({"a": union(i, s_)}, {"b": LA})),
@@ -691,6 +709,9 @@ LARGE: List[Tuple[V, ...]] = [
     (g("Dict", STR, INT), g("Dict", STR, STR), g("Dict", STR, FLT), g("Dict", STR, BYT), g("Dict", STR, BOOL), g("Dict", STR, NONE_T)),
     (g("List", ANY), g("Set", ANY), g("Dict", ANY, ANY), INT, STR, FLT, NONE_T),
     (g("Type", BASE), g("Type", L1), S("mod:typing.Callable"), g("Iterator", ANY), INT, STR, NONE_T),
+    # six plug-in classes that explicitly subclass a Protocol: the only ancestor they share refuses issubclass()
+    tuple(cls(f"class:Plug{k}") for k in range(1, 7)),
+    tuple(cls(f"class:Plug{k}") for k in range(6, 0, -1)),
     # more tuples than the maximum, the first ones filled by a falsy class object
     (g("Tuple", cls("class:Registry")), g("Tuple", cls("class:Registry"), cls("class:Registry")), g("Tuple", INT), g("Tuple", INT, INT), g("Tuple", INT, INT, INT), g("Tuple", INT, INT, INT, INT)),
     (g("Dict", cls("class:Registry"), INT), g("Dict", cls("class:EmptyEnum"), STR)),
